@@ -145,7 +145,14 @@ public:
                              Scalar tol = 100 * Eigen::NumTraits<Scalar>::dummy_precision())
 
     {
-        m_search_space.initialize_search_space(initial_space);
+        // The iteration relies on an orthonormal basis of the search space. The guess is only
+        // documented as "expected to be normalized", so orthonormalize it unless it already is
+        // (an orthonormal guess is used as it is)
+        Matrix guess = initial_space;
+        const Scalar ortho_prec = Eigen::NumTraits<Scalar>::epsilon() * static_cast<Scalar>(guess.rows());
+        if (!(guess.transpose() * guess).isIdentity(ortho_prec))
+            QR_orthogonalisation(guess);
+        m_search_space.initialize_search_space(guess);
         niter_ = 0;
         for (niter_ = 0; niter_ < maxit; niter_++)
         {
